@@ -354,12 +354,52 @@ def run_file(datadir, fname, cfg):
             "lazy_capable": len(lazy_ok), "inner_shape_branches": symm, "pybes3": pybes3.__file__}
 
 
+def run_cross(datadir, order, rounds=2):
+    """all fixtures in ONE process, in the given order: a branch read lazily from one file must not depend on which files were read
+    before it (forms, factories and readers belong to a file's own streamer information)"""
+    import dask
+    dask.config.set(scheduler="synchronous")
+    files = sorted(f for f in os.listdir(datadir) if f.endswith((".rtraw", ".dst", ".rec")))
+    if order == "reversed":
+        files = files[::-1]
+    mism, hashes = [], []
+    n_eval = 0
+    for rnd in range(rounds):                # second round: every file again after all others have been seen
+        for fname in files:
+            fn = os.path.join(datadir, fname)
+            tree = uproot.open(fn)["Event"]
+            for k, br, p in registered(tree):
+                try:
+                    br.interpretation.awkward_form(br.file)
+                except NotImplementedError:
+                    continue
+                n_eval += 1
+                hashes.append(hashlib.sha1(json.dumps(["cross", order, rnd, fname, k]).encode()).hexdigest()[:16])
+                try:
+                    e = br.array()
+                    d = uproot.dask({fn: "Event/" + k}, steps_per_file=2 if rnd else 1)
+                    ann = tstr(d[br.name])
+                    c = d.compute()[br.name]
+                except Exception as ex:  # noqa: BLE001
+                    mism.append({"kind": "cross-file-exception", "file": fname, "branch": k, "detail": [order, rnd], "type_equal": False,
+                                 "values_equal": False, "got_type": exmsg(ex)})
+                    continue
+                ct, et = tstr(c), tstr(e)
+                dd = compare(c, e)
+                if ann != ct or dd:
+                    mism.append({"kind": "cross-file", "file": fname, "branch": k, "detail": [order, rnd], "announced": ann[:300], "computed_type": ct[:300],
+                                 "eager_type": et[:300], **(dd or {"type_equal": ct == et, "values_equal": True})})
+    return {"order": order, "files": files, "mismatches": mism[:200], "evaluations": n_eval, "hashes": hashes}
+
+
 def main():
     cmd = sys.argv[1]
     if cmd == "dump":
         out = dump(sys.argv[2])
     elif cmd == "file":
         out = run_file(sys.argv[2], sys.argv[3], json.load(open(sys.argv[4])))
+    elif cmd == "cross":
+        out = run_cross(sys.argv[2], sys.argv[3], int(sys.argv[4]) if len(sys.argv) > 4 else 2)
     else:
         raise SystemExit("unknown command")
     json.dump(out, sys.stdout)
